@@ -39,6 +39,7 @@ BOUNDS = {
 }
 ASSUMPTIONS = [
     "reference = Taylor-series (order 24) integration of Hill's equations in nondimensional time; impulses once at their date, thrust on [start, stop)",
+    "history part: answers are compared bit-for-bit with a fresh orbit/propagator; the bound orbit, the user's orbit and its maneuvers must be unchanged",
     "at a query date exactly equal to an impulse date either the pre- or the post-impulse state is accepted (the property fixes neither)",
     "Date comparisons have ~0.6 us resolution (float MJD): query dates are kept >= 1 ms away from event dates unless exactly equal",
     "small-separation clause: bound 3 rho_max^2/R x (1.5 theta^2 + 8 theta) from Duhamel's formula with the quadratic gravity residual |da| <= 3 n^2 rho^2/R",
@@ -703,16 +704,155 @@ def check_helper(case, t):
             raise
 
 
+
+# ---------------------------------------------------------------------------
+# history independence: one initialised propagator asked several times
+
+
+def hist_lists(R, tier):
+    """Maneuver lists for the history part: <= 2 events, axis rotation 0, both first offsets (0.0 = maneuver dated
+    EXACTLY at the epoch of the chaser), touching / separated, plus one impulse-in-burn list."""
+    out = []
+    for mans in man_lists(R, tier):
+        if 1 <= len(mans) <= 2 and all(abs(m["vec"][j % 3]) > 0 for j, m in enumerate(mans)):
+            out.append(mans)
+    seen = []
+    for m in out:
+        if m not in seen:
+            seen.append(m)
+    return seen + inburn_lists(R, tier)[:1]
+
+
+def hist_scripts(mans, R, tier):
+    """Every sequence of <= 3 requests over the alphabet
+       ('prop', q)  propagator.propagate(date) on the already initialised propagator (no re-binding of the orbit)
+       ('orb', q)   Orbit.propagate(date) (re-binds a copy of the orbit)
+       ('iter',)    list(Orbit.iter(stop, step)) ; ('ephem',) Orbit.ephem(stop, step)
+    with q in {epoch, a date inside the list, a date after it}."""
+    ed = edges(mans)
+    q_mid = us((ed[0] + ed[-1]) / 2) if ed[-1] > ed[0] else us(ed[0] + 0.5)
+    q_end = us(ed[-1] + 777.0)
+    alpha = [("prop", 0.0), ("prop", q_mid), ("prop", q_end), ("orb", q_end), ("iter",)]
+    if tier != "quick":
+        alpha += [("ephem",), ("orb", q_mid)]
+    depth = 3
+    out = []
+    for k in range(1, depth + 1):
+        import itertools as _it
+
+        for seq in _it.product(alpha, repeat=k):
+            out.append([list(x) for x in seq])
+    return out, q_end
+
+
+def check_hist(case, t):
+    """Every answer of a request sequence on ONE orbit / propagator equals the answer of a fresh one (bit for bit),
+    and the orbit bound to the propagator, the user's orbit and its maneuvers are unchanged afterwards."""
+    from beyond.dates import Date, timedelta
+
+    R, orient, s, mans, script, q_end = case["R"], case["orient"], case["s"], case["mans"], case["script"], case["q_end"]
+    clause = ("an impulsive maneuver changes the velocity exactly once at its date, whatever was asked before "
+              "(the same request gives the same answer; the bound orbit is not modified by propagation)")
+    sig = "cw.history"
+    epoch = Date(*EPOCH)
+
+    def fresh(q):
+        o, _ = lib_orbit(R, orient, s, mans)
+        r = o.propagate(_date(q))
+        t.trans()
+        return np.array(r, dtype=float)
+
+    # fresh answers first (lib_orbit restores the registries, i.e. replaces frames.dynamic['Hill'])
+    step = us(q_end / 4)
+    need = set()
+    for op in script:
+        if op[0] in ("prop", "orb"):
+            need.add(op[1])
+        else:
+            need.update(us(k * step) for k in range(5))
+    try:
+        want = {q: fresh(q) for q in sorted(need)}
+    except Exception as e:
+        t.fail(sig + "/raises", clause, case, "a state", repr(e))
+        return
+    orb, M6 = lib_orbit(R, orient, s, mans)
+    prop = orb.propagator
+    orb0 = np.array(orb, dtype=float)
+    man0 = [(type(m).__name__, np.array(m._dv, dtype=float).copy()) for m in orb.maneuvers]
+    prop.orbit = orb  # initialise the propagator once
+    bound0 = np.array(prop.orbit, dtype=float)
+    bound_obj = prop.orbit
+
+    def compare(r, q, step_no, what):
+        got = np.array(r, dtype=float)
+        if q not in want:
+            raise RuntimeError(f"harness: no fresh answer for {q}")
+        if not np.array_equal(got, want[q]):
+            cls = "epoch-maneuver" if any(m["start"] == 0.0 for m in mans) else "later-maneuvers"
+            t.fail(f"{sig}/answer-depends-on-history/{cls}", clause, case, want[q], got,
+                   f"request #{step_no} {what} at t0+{q}: |diff|={np.max(np.abs(got - want[q])):.3e}")
+            return False
+        return True
+
+    ok = True
+    try:
+        for i, op in enumerate(script):
+            if op[0] == "prop":
+                if prop.orbit is None or prop.orbit is not bound_obj:
+                    prop.orbit = orb
+                    bound_obj = prop.orbit
+                ok &= compare(prop.propagate(_date(op[1])), op[1], i, "propagator.propagate")
+                t.trans()
+            elif op[0] == "orb":
+                ok &= compare(orb.propagate(_date(op[1])), op[1], i, "Orbit.propagate")
+                t.trans()
+                bound_obj = prop.orbit
+                bound0 = np.array(prop.orbit, dtype=float)
+            else:
+                if op[0] == "iter":
+                    pts = list(orb.iter(stop=timedelta(seconds=q_end), step=timedelta(seconds=step)))
+                else:
+                    pts = list(orb.ephem(stop=timedelta(seconds=q_end), step=timedelta(seconds=step)))
+                t.trans(len(pts))
+                bound_obj = prop.orbit
+                bound0 = np.array(prop.orbit, dtype=float)
+                if len(pts) != 5:
+                    t.fail(sig + "/iter-count", "iter yields start..stop inclusive", case, 5, len(pts))
+                for r in pts:
+                    q = us((r.date - epoch).total_seconds())
+                    ok &= compare(r, q, i, "Orbit." + op[0])
+            if not ok:
+                break
+    except Exception as e:
+        import traceback
+
+        tb = traceback.extract_tb(e.__traceback__)
+        if isinstance(e, RuntimeError) and "harness" in str(e) or "/beyond/" not in tb[-1].filename:
+            raise
+        t.fail(sig + "/raises", clause, case, "a state", repr(e))
+        return
+    if not np.array_equal(np.array(prop.orbit, dtype=float), bound0):
+        t.fail(sig + "/bound-orbit-modified", clause, case, bound0, np.array(prop.orbit, dtype=float),
+               "the orbit stored in the propagator changed during propagation")
+    if not np.array_equal(np.array(orb, dtype=float), orb0):
+        t.fail(sig + "/user-orbit-modified", clause, case, orb0, np.array(orb, dtype=float))
+    man1 = [(type(m).__name__, np.array(m._dv, dtype=float)) for m in orb.maneuvers]
+    if len(man1) != len(man0) or any(a[0] != b[0] or not np.array_equal(a[1], b[1]) for a, b in zip(man0, man1)):
+        t.fail(sig + "/maneuvers-modified", clause, case, man0, man1)
+    t.outcome(("hist", len(script), script[0][0]))
+
+
 # ---------------------------------------------------------------------------
 
-CHECKS = dict(agree=check_agree, perm=check_perm, compose=check_compose, jump=check_jump, kepler=check_kepler, helper=check_helper)
+CHECKS = dict(agree=check_agree, perm=check_perm, compose=check_compose, jump=check_jump, kepler=check_kepler, helper=check_helper,
+              hist=check_hist)
 
 
 def check_case(case, t):
     CHECKS[case["kind"]](case, t)
     key = tuple(sorted((k, repr(v)) for k, v in case.items()))
     t.state(key)
-    nontrivial = any(case.get(k) not in (None, 0, 0.0) for k in ("q", "q2", "dt", "b", "d"))
+    nontrivial = any(case.get(k) not in (None, 0, 0.0) for k in ("q", "q2", "dt", "b", "d", "script"))
     t.ev(key if nontrivial else None)
 
 
@@ -730,6 +870,11 @@ def units(tier, seed):
                 u.append((cfg, dict(part="man", R=R, orient=orient, tier=tier, half=half)))
             u.append((cfg, dict(part="kepler", R=R, orient=orient, tier=tier)))
             u.append((cfg, dict(part="helper", R=R, orient=orient, tier=tier)))
+    # history part: does not depend on the radius (quick: one radius), both orientations
+    for R in RADII[tier][:1] if tier == "quick" else RADII[tier][1::3]:
+        for orient in ORIENTS:
+            for chunk in range(4):
+                u.append((cfg, dict(part="hist", R=R, orient=orient, tier=tier, chunk=chunk, of=4)))
     return u
 
 
@@ -779,6 +924,16 @@ def run_unit(p, t):
                 check_case(dict(kind="compose", R=R, orient=orient, s=s, mans=mans, q1=q1, q2=end), t)
             if li % 50 == 0:
                 t.sample(dict(kind="agree", R=R, orient=orient, s=s, mans=mans, q=qs[-1]))
+    elif p["part"] == "hist":
+        s0 = [120.0, -300.0, 45.0, 0.3, -0.2, 0.1]
+        lists = hist_lists(R, tier)
+        for li, mans in enumerate(lists):
+            if li % p["of"] != p["chunk"]:
+                continue
+            scripts, q_end = hist_scripts(mans, R, tier)
+            for script in scripts:
+                check_case(dict(kind="hist", R=R, orient=orient, s=s0, mans=mans, script=script, q_end=q_end), t)
+        t.sample(dict(kind="hist", R=R, orient=orient, s=s0, mans=lists[0], script=[["prop", 0.0], ["iter"]], q_end=777.0))
     elif p["part"] == "kepler":
         shapes = list(SHAPES)[:5] if tier == "quick" else list(SHAPES)
         fr = [0.25, 0.5, 1.0, 2.0, -0.5] if tier == "quick" else [0.125, 0.25, 0.5, 1.0, 1.5, 2.0, -0.5, -2.0]
